@@ -821,12 +821,48 @@ def rule_r9(ctx) -> RuleResult:
     return rr
 
 
+def rule_r10(ctx) -> RuleResult:
+    """Sibling agreement of the cookie consumers: a character of the private-use cookie range that
+    the input itself contains has no entry in the table.  Every `<ctx>.cookies[idx]` with an index
+    computed from a character is dominated by a bound test of that index against the table's
+    length (three of the four consumers have one -- the fourth raises IndexError out of expand())."""
+    rr = RuleResult("C05.R10", "every consumer of a cookie index checks it against the table length", min_instances=3)
+    for dotted, m, f in ctx.index.all_functions():
+        parents = m.parents
+        for n in walk_no_nested(f):
+            if not (isinstance(n, ast.Subscript) and isinstance(n.value, ast.Attribute) and n.value.attr == "cookies"
+                    and isinstance(n.ctx, ast.Load) and isinstance(n.slice, ast.Name)):
+                continue
+            idx = n.slice.id
+            # a preceding `if idx >= len(<ctx>.cookies): ... continue/return/raise` (or `idx < len(...)` around the use)
+            guarded = False
+            for t in walk_no_nested(f):
+                if isinstance(t, ast.If) and t.lineno < n.lineno and isinstance(t.test, ast.Compare) and len(t.test.ops) == 1 \
+                        and isinstance(t.test.left, ast.Name) and t.test.left.id == idx and isinstance(t.test.ops[0], (ast.GtE, ast.Gt)) \
+                        and "len(" in unparse(t.test.comparators[0]) and "cookies" in unparse(t.test.comparators[0]) \
+                        and t.body and isinstance(t.body[-1], (ast.Continue, ast.Return, ast.Raise)):
+                    guarded = True
+            p_ = n
+            while p_ in parents and parents[p_] is not f:
+                p_ = parents[p_]
+                if isinstance(p_, ast.If) and isinstance(p_.test, ast.Compare) and isinstance(p_.test.left, ast.Name) and p_.test.left.id == idx \
+                        and isinstance(p_.test.ops[0], (ast.Lt, ast.LtE)) and "cookies" in unparse(p_.test.comparators[0]):
+                    guarded = True
+            if guarded:
+                rr.ok(dotted, unparse(n) + " under a bound test", {"fn": dotted, "index": idx})
+            else:
+                rr.bad(Finding("C05.R10", m.relpath, dotted, unparse(n),
+                               "the cookie table is indexed without the bound test its sibling consumers have: a private-use character "
+                               "in the input (e.g. inside `{{{{{{...}}}}}}` or a template body) raises IndexError out of expand()", n.lineno))
+    return rr
+
+
 def run(ctx) -> list:
     cg = CallGraph(ctx.index)
     sf = SqlFacts(ctx.index)
     scope = _scope(ctx, cg)
     results = [rule_r1(ctx, cg), rule_r2(ctx, cg, scope), rule_r3(ctx), rule_r4(ctx, cg, scope), rule_r5(ctx, cg, sf),
-            rule_r6(ctx), rule_r7(ctx, cg), rule_r8(ctx, cg), rule_r9(ctx)]
+            rule_r6(ctx), rule_r7(ctx, cg), rule_r8(ctx, cg), rule_r9(ctx), rule_r10(ctx)]
     if ctx.thorough:
         from ..core.cgcheck import crosscheck
 
